@@ -33,6 +33,8 @@ ASSUMPTIONS = [
 ]
 MIN_NONTRIVIAL = 200
 REQUIRED_COUNTERS = ["sets_rendered", "relative_cross_directory_resolutions", "unresolvable_matched", "include_args_checked", "import_beats_context", "inline_def_precedence", "inheritable_via_self", "module_namespace_calls", "sibling_namespace_renders", "namespace_api_resolutions", "nameless_namespace_renders", "relative_inherit_chains", "module_namespace_inline_defs", "same_relative_uri_from_several_depths", "inline_defs_in_import_namespaces"]
+RULE += " (H) namespace names with capitals / digits, pairs differing in case only, through the <%Name:def> tag spelling."
+REQUIRED_COUNTERS += ["namespace_names_as_written"]
 
 _st = {}
 
@@ -627,6 +629,26 @@ def run_directed(res):
                 res.violate("inline-def-leaks-unqualified", "<%%namespace %simport=%r> holding an inline def `label`, context has label='ctx-label': rendered %r, expected %r" % (
                     "" if nameless else "name=nn ", imp, got, want))
     res.nontrivial("inline-import")
+
+    # (H) the name a namespace is declared under is used as written - capitals, underscores, digits - in ${Name.def()}
+    # and in the <%Name:def> tag spelling alike (two namespaces whose names differ in case only are two namespaces)
+    for nm, other in (("Util", "util"), ("util", "Util"), ("myLib_2", "mylib_2"), ("NS", "ns")):
+        lk = L()
+        lk.put_string("/lib_a.html", '<%def name="hi(who)">A-hi(${who})</%def><%def name="wrap()">A[${caller.body()}]</%def><%def name="Cap()">A-Cap</%def>')
+        lk.put_string("/lib_b.html", '<%def name="hi(who)">B-hi(${who})</%def><%def name="wrap()">B[${caller.body()}]</%def><%def name="Cap()">B-Cap</%def>')
+        try:
+            lk.put_string("/h.html", '<%%namespace name="%s" file="/lib_a.html"/><%%namespace name="%s" file="/lib_b.html"/>'
+                                     '<%%%s:hi who="x"/>|<%%%s:wrap>body</%%%s:wrap>|${%s.hi("y")}|<%%%s:Cap/>|<%%%s:hi who="z"/>|<%%%s:wrap>b2</%%%s:wrap>' % (
+                                         nm, other, nm, nm, nm, nm, nm, other, other, other))
+            got = render(lk, "/h.html")
+        except Exception as e:
+            got = "%s: %s" % (type(e).__name__, e)
+        res.evaluations += 1
+        res.count("namespace_names_as_written")
+        want = "A-hi(x)|A[body]|A-hi(y)|A-Cap|B-hi(z)|B[b2]"
+        if got != want:
+            res.violate("namespace-name-as-written", "namespaces declared as %r and %r, used through the <%%name:def> tag spelling and in expressions: rendered %r, expected %r" % (nm, other, got, want))
+    res.nontrivial("namespace-names")
 
     # (F) get_namespace with the SAME relative URI string from templates at different depths within one render: each
     # call resolves against its own template (and a call that leaves the root is unresolvable whatever came before)
